@@ -65,7 +65,8 @@ func (w *faultWriter) Write(p []byte) (int, error) {
 
 // faultReader delivers data in blocks and fails the read call number failAt. mode: "once" = that call
 // returns (0, err) and later calls continue; "sticky" = stays failed; "partial" = that call delivers its
-// data together with the error, then stays failed.
+// data together with the error, then stays failed; "partial-once" = data together with the error, later
+// calls continue normally.
 type faultReader struct {
 	data   []byte
 	pos    int
@@ -82,8 +83,8 @@ func (r *faultReader) Read(p []byte) (int, error) {
 	if len(p) == 0 {
 		return 0, nil
 	}
-	failing := r.failAt >= 0 && (i == r.failAt || (r.mode != "once" && i > r.failAt))
-	if failing && r.mode != "partial" {
+	failing := r.failAt >= 0 && (i == r.failAt || (r.mode != "once" && r.mode != "partial-once" && i > r.failAt))
+	if failing && r.mode != "partial" && r.mode != "partial-once" {
 		r.hit = true
 		return 0, errInjected
 	}
@@ -291,7 +292,7 @@ func init() {
 				limit = 400
 			}
 			for i := 0; i < limit; i++ {
-				for _, mode := range []string{"once", "sticky", "partial"} {
+				for _, mode := range []string{"once", "sticky", "partial", "partial-once"} {
 					r := &faultReader{data: doc, block: c.Block, failAt: i, mode: mode}
 					faults++
 					err, bad := c29Read(c, ctx, doc, r)
